@@ -245,6 +245,7 @@ struct Result {
     std::map<std::string, uint64_t> probes, faults;
     std::string notes;
     std::string sample;
+    std::map<std::string, std::string> fields;
     int nontrivial_override = -1;
     std::map<std::string, uint64_t> strategies;
     uint64_t subruns = 0;
@@ -300,6 +301,7 @@ void debug(const std::string& s) {
     if (verbose) { fprintf(stderr, "[verif] %s\n", s.c_str()); }
 }
 void set_nontrivial(bool v) { g_res.nontrivial_override = v ? 1 : 0; }
+void set_field(const std::string& name, const std::string& json_value) { g_res.fields[name] = json_value; }
 int current_thread() { return t_self ? t_self->id : 0; }
 void name_thread(const char* role) {
     if (t_self) { snprintf(t_self->name, sizeof(t_self->name), "%s", role); }
@@ -362,6 +364,7 @@ static void print_result_line(bool fatal_flag) {
     dump_map("probes", g_res.probes);
     dump_map("strategies", g_res.strategies);
     if (!g_res.sample.empty()) { o += ",\"sample\":" + g_res.sample; }
+    for (const auto& kv : g_res.fields) { o += ",\"" + json_escape(kv.first) + "\":" + kv.second; }
     if (!g_res.notes.empty()) { o += ",\"notes\":\"" + json_escape(g_res.notes) + "\""; }
     if (g_res.violation) {
         o += ",\"tape\":[";
